@@ -113,6 +113,26 @@ def run(chk):
 
     r1 = chk.rule("C14.R1", "width discipline: every operand of >> and the returned value are below 2**32 (non-negative)")
     r2 = chk.rule("C14.R2", "purity: no calls other than len/ord/range, no globals, no attribute access; the input string is hashed as given")
+    # no memory between calls (decided before the value graph is built: a memo table is reported as what it is, also when
+    # the code around it is beyond the term evaluator)
+    from .report import memory_between_calls
+
+    mem_scope, todo_m = [], [fn]
+    while todo_m:
+        g_ = todo_m.pop()
+        if g_ in mem_scope:
+            continue
+        mem_scope.append(g_)
+        for n_ in ast.walk(g_.node):
+            if isinstance(n_, ast.Call) and isinstance(n_.func, ast.Name) and n_.func.id in fn.module.functions:
+                todo_m.append(fn.module.functions[n_.func.id])
+    for g_ in mem_scope:
+        for n_, what in memory_between_calls(g_):
+            r2.fail("%s:memory:%s" % (g_.name, what.split(":")[0].split("`")[0].strip().replace(" ", "-")[:40]), "%s %s: the value returned for a string can depend on what was hashed before (another seed, another caller), so it is not a function of (data, seed)" % (g_.name, what), fn=g_, node=n_)
+        for n_ in ast.walk(g_.node):
+            if isinstance(n_, ast.Name) and isinstance(n_.ctx, ast.Load) and n_.id in g_.module.assigns and isinstance(g_.module.assigns[n_.id], (ast.Dict, ast.List, ast.Set, ast.DictComp, ast.ListComp)) or (isinstance(n_, ast.Name) and isinstance(n_.ctx, ast.Load) and n_.id in g_.module.assigns and isinstance(g_.module.assigns[n_.id], ast.Call) and not isinstance(getattr(n_, "_parent", None), ast.Call)):
+                r2.fail("%s:module-state:%s" % (g_.name, n_.id), "%s reads the module-level mutable `%s`: the hash is no longer a function of its arguments alone" % (g_.name, n_.id), fn=g_, node=n_)
+                break
     r3 = chk.rule("C14.R3", "value graph equals the reference for: initial state, loop header and indices, block body, tails 0..3 + finaliser")
     programs = 0
     samples = []
